@@ -105,6 +105,17 @@ def run_shard(shard):
                 for (m2, b2) in lays:
                     for s2 in "+-":
                         check_pair(res, N, b1, s1, b2, s2)
+        # queries with overlapping blocks against every disjoint reference location
+        ovl = [b for b in worlds.layouts(N, 2, "overlap") if all(s < e for s, e in b)]
+        idx = 0
+        for b1 in worlds.layouts(N, w["k_pairs"], "disjoint"):
+            for s1 in "+-":
+                idx += 1
+                if idx % NSHARD != i:
+                    continue
+                for b2 in ovl:
+                    for s2 in "+-":
+                        check_pair_overlapping_query(res, N, b1, s1, b2, s2)
         # parent mismatch menu on a few layouts (every combination of parent kinds)
         if i == 0:
             check_pair_parents(res, N)
@@ -277,6 +288,36 @@ def _representable(E, strand):
     return M.P(M.sort_blocks(bl, strand), strand) == list(E)
 
 
+def check_pair_overlapping_query(res, N, b1, s1, b2, s2):
+    """the QUERY has overlapping blocks (frameshift-style): the relative location must keep every duplicated base (same
+    multiset as the point-wise map); the order of overlapping blocks is the C01-overlap-order representation limit"""
+    L = lib.mk_loc(b1, s1)
+    Q = lib.mk_loc(b2, s2)
+    PL = M.P(M.sort_blocks(b1, s1), s1)
+    SL = set(PL)
+    E = [p for p in M.P(M.sort_blocks(b2, s2), s2) if p in SL]
+    base = dict(N=N, L=[list(b) for b in b1], Ls=s1, Q=[list(b) for b in b2], Qs=s2)
+    for opt in (True, False):
+        o = lib.outcome(L.parent_to_relative_location, Q, optimize_blocks=opt)
+        res.trans()
+        case = _case("pairovl", opt=opt, **base)
+        if not E:
+            continue
+        res.nontriv(("lrt-ovl", tuple(b1), s1, tuple(b2), s2, opt))
+        res.note("lrt", "overlapping-query")
+        if o[0] != "ok":
+            res.deviation("location_relative_to", case, o[1], sorted(E), sig="lrt-ovl-raises")
+            continue
+        R = o[1]
+        rb = lib.loc_blocks(R)
+        if any(s < 0 or e > len(PL) or s > e for s, e in rb):
+            res.deviation("location_relative_to", case, lib.canon_loc(R), "inside [0,len)", sig="lrt-ovl-out-of-range")
+            continue
+        O = [PL[i] for i in M.P(rb, lib.loc_strand(R))]
+        if sorted(O) != sorted(E) or lib.loc_strand(R) != M.strand_rel(s2, s1):
+            res.deviation("location_relative_to", case, sorted(O), sorted(E), sig="lrt-ovl-multiset")
+
+
 def check_pair(res, N, b1, s1, b2, s2, pk="none"):
     """L = (b1,s1) is the reference location; Q = (b2,s2) is the query; Q relative to L."""
     par = _parents(N)[pk]
@@ -436,6 +477,8 @@ def replay(case):
         check_unary(res, case["mode"], case["N"], bl, case["strand"], case["parent"])
     elif k == "pair":
         check_pair(res, case["N"], tuple(tuple(b) for b in case["L"]), case["Ls"], tuple(tuple(b) for b in case["Q"]), case["Qs"], case.get("parent", "none"))
+    elif k == "pairovl":
+        check_pair_overlapping_query(res, case["N"], tuple(tuple(b) for b in case["L"]), case["Ls"], tuple(tuple(b) for b in case["Q"]), case["Qs"])
     elif k == "pairparent":
         check_pair_parents(res, 6)
     elif k == "feat":
